@@ -387,7 +387,11 @@ pub fn flex_layout(
             let mut child_layout = child_layout_opt.expect("not all flex children are allocated");
             if let Some(flex) = child.flex {
                 // compute available flex
-                let child_major_max = ((major_remain as f64) * flex / flex_total).round() as usize;
+                // NOTE: ratio is calculated first, `major_remain * flex` can overflow to
+                //       infinity for huge flex factors, share can not exceed remaining space.
+                let child_major_max = (((major_remain as f64) * (flex / flex_total)).round()
+                    as usize)
+                    .min(major_remain);
                 flex_total -= flex;
                 if child_major_max != 0 {
                     // layout child
